@@ -182,8 +182,25 @@ class ControlWorld:
             targets.side.reset(tok)
         return s
 
-    async def send(self, s, line):
-        s.reader.feed_data(line.encode() + b"\n")
+    async def send(self, s, line, split=None):
+        data = line.encode() + b"\n"
+        if split:
+            # the line arrives in several TCP segments: nothing may be answered before the newline is there
+            k = max(1, min(len(data) - 1, int(len(data) * split)))
+            s.reader.feed_data(data[:k])
+            await self.idle()
+            early = s.new_writes()
+            if early:
+                self.violate("C18.one_reply", f"{len(early)} write(s) before the line was complete: {early[0][:60]!r}")
+            s.reader.feed_data(data[k:])
+        else:
+            s.reader.feed_data(data)
+        await self.idle()
+        return s.new_writes()
+
+    async def send_batch(self, s, lines):
+        """Several complete lines in one segment: one reply each, in order."""
+        s.reader.feed_data(b"".join(ln.encode() + b"\n" for ln in lines))
         await self.idle()
         return s.new_writes()
 
@@ -250,6 +267,15 @@ def domain(pname, rng, method=None):
     raise KeyError(pname)
 
 
+def domain_by_annotation(param, rng):
+    ann = str(param.annotation)
+    if "int" in ann:
+        v = rng.choice([0, 1, 2, 3, 7])
+        return v, str(v)
+    v = rng.choice(["ab", "x", "hello", "7"])
+    return v, v
+
+
 def rep_domain(pname, rng):
     if pname == "task_ids":
         v = [rng.choice([0, 0, 1, 1, 2, 3, 5, 17, -1]) for _ in range(rng.choice([0, 1, 1, 2, 3]))]
@@ -295,7 +321,10 @@ def gen_command(cls, rng, helps=None, only=None, avoid=()):
     cmd = name.replace("_", "-")
     if isinstance(member, property):
         if member.fset is not None and rng.random() < 0.6:
-            v, t = domain("value", rng)
+            if name == "pool_size":
+                v, t = domain("value", rng)
+            else:
+                v, t = domain_by_annotation(list(inspect.signature(member.fset).parameters.values())[1], rng)
             return Command(name, "prop", f"{cmd} {t}", setval=v, is_set=True)
         return Command(name, "prop", cmd)
     sig = inspect.signature(member)
@@ -309,7 +338,10 @@ def gen_command(cls, rng, helps=None, only=None, avoid=()):
             v, ts = rep_domain(p.name, rng)
             tail = (p.name, v, ts)
         elif p.default is p.empty:
-            v, t = domain(p.name, rng, name)
+            try:
+                v, t = domain(p.name, rng, name)
+            except KeyError:
+                v, t = domain_by_annotation(p, rng)
             pos.append(v)
             toks.append(t)
         elif p.name == "return_exceptions":
@@ -319,7 +351,10 @@ def gen_command(cls, rng, helps=None, only=None, avoid=()):
                 kw[p.name] = True
         else:
             if rng.random() < 0.5:
-                v, t = domain(p.name, rng, name)
+                try:
+                    v, t = domain(p.name, rng, name)
+                except KeyError:
+                    v, t = domain_by_annotation(p, rng)
                 long, shorts = option_names(p.name, help_text)
                 opts.append([rng.choice([long, long] + shorts), t])
                 kw[p.name] = v
